@@ -444,7 +444,9 @@ class FileSystemStoreBackend(StoreBackendBase, StoreBackendMixin):
         for dirpath, _, filenames in os.walk(self.location):
             is_cache_hash_dir = re.fullmatch("[a-f0-9]{32}", os.path.basename(dirpath))
 
-            if is_cache_hash_dir:
+            # A function can be named like an item: its directory holds the
+            # code of the function.
+            if is_cache_hash_dir and "func_code.py" not in filenames:
                 output_filename = os.path.join(dirpath, "output.pkl")
                 try:
                     last_access = os.path.getatime(output_filename)
